@@ -320,7 +320,7 @@ def run(ctx, report: Report) -> None:
     nth_bounded_table(ctx, r1)
 
     # ---- R5 (the whole pipeline by interpretation, bounded) --------------------------------------------------------------
-    r5 = report.rule('C02-R5', 'An+B through the whole pipeline equals the formula (bounded)', floor=1)
+    r5 = report.rule('C02-R5', 'An+B through the whole pipeline equals the formula (bounded)', floor=2)
     from .e2ematch import nth_formula_table
     nth_formula_table(ctx, r5)
 
